@@ -237,6 +237,76 @@ def fold_events(plan, run, universe, baselines):
     return out
 
 
+def suite_part(ck, selftest=False):
+    """the rustc processes that compile the repository's own test crates: each runs its derives one after
+    the other over the fixture files - a one-thread call history whose cache events (first use loads, later
+    uses hit, nothing is ever poisoned) are validated against Cache.tla by TLC (Trace_Suite), and whose
+    results must equal the same call made alone in a fresh process"""
+    import suite
+    lines = suite.record()
+    if not lines:
+        raise ToolError("no derive events from the repository's test crates")
+    # fresh-process baselines, one isolated process per distinct call
+    base = {}
+    for k, ln in enumerate(lines):
+        key = json.dumps([ln["query_path"], ln["schema_path"], ln["dump"], ln["ident"]])
+        if key in base or ln["status"] == "options_err":
+            continue
+        job = {"id": k, "schema_path": ln["schema_path"], "query_path": ln["query_path"],
+               "options": suite.options_from_event(ln), "want_tokens": True}
+        r = vlib.gqlv_isolated("gen", job, timeout=60)
+        base[key] = r.get("result") or {"status": "crash", "msg": str(r)[:200]}
+    nj, idx = [], {}
+    for k, ln in enumerate(lines):
+        b = base.get(json.dumps([ln["query_path"], ln["schema_path"], ln["dump"], ln["ident"]]))
+        if b and b.get("status") == "ok" and ln["status"] == "ok":
+            nj.append({"id": "b%d" % k, "tokens": b["tokens"]})
+            nj.append({"id": "d%d" % k, "tokens": ln["tokens"]})
+    norm = {x["id"]: x.get("norm") for x in vlib.gqlv("normtokens", nj)[0]} if nj else {}
+
+    def symbol_of(k, ln, pure):
+        b = base.get(json.dumps([ln["query_path"], ln["schema_path"], ln["dump"], ln["ident"]])) or {}
+        ck.count()
+        same = b.get("status") == ln["status"] and (ln["status"] != "ok" or (
+            norm.get("b%d" % k) is not None and norm.get("b%d" % k) == norm.get("d%d" % k)))
+        if same and ln["status"] == "ok":
+            return pure
+        if same:
+            return "refused"         # both refuse: not a behaviour the cache model classifies; the call is skipped below
+        ck.violation("suite-purity-%s-%d" % (ln["ident"], k), {"kind": "suite", "struct": ln["ident"], "query_path": ln["query_path"],
+                                                             "schema_path": ln["schema_path"], "in_rustc_process": ln["status"],
+                                                             "fresh_process": b.get("status"), "fresh_msg": b.get("msg")},
+                     "C08 (repository test crates): the derive on `%s` inside its rustc process (%d-th call there) gave %s, the same call alone in a fresh process %s" % (
+                         ln["ident"], k, ln["status"], b.get("status")), case_key="suite-purity")
+        return "differs"
+    universe, trace, nproc = suite.cache_universe_and_trace(lines, symbol_of)
+    if any(e["outcome"] == "refused" for e in trace):
+        raise ToolError("a derive of the repository's own tests is refused by the generator: %s" % [l["ident"] for l in lines if l["status"] != "ok"][:3])
+    if selftest:
+        i = next(k for k, e in enumerate(trace) if e["a"] == "Use" and e["kind"] == "hit")
+        trace[i] = dict(trace[i], kind="load")
+    wd = os.path.join(vlib.WORK, "suite")
+    upath, tpath = os.path.join(wd, "universe.ndjson"), os.path.join(wd, "cache_trace.ndjson")
+    open(upath, "w").write(json.dumps(universe) + "\n")
+    with open(tpath, "w") as f:
+        for e in trace:
+            f.write(json.dumps(e) + "\n")
+    res = vlib.run_tlc("Trace_Suite", "Trace_Suite.cfg", env={"TRACE": tpath, "UNIVERSE": upath}, dfs=True, timeout=900)
+    ck.add_tlc(res)
+    ck.notes["repository_test_crates"] = {"rustc_processes": nproc, "derives": len(lines), "cache_trace_events": len(trace),
+                                          "distinct_files": len(universe["files"])}
+    if not res["ok"]:
+        import re
+        m = re.search(r'"UNMATCHED", (\d+)', res["out"])
+        k = int(m.group(1)) if m else 1
+        start = max([i for i in range(len(trace)) if trace[i]["a"] == "Reset" and i < k] or [0])
+        ck.violation("suite-trace-%s" % vlib.stable_hash(trace[start]["plan"]),
+                     {"kind": "suite-trace", "plan": trace[start]["plan"], "unmatched_event_index": k, "events_before": trace[max(0, k - 8):k + 1],
+                      "calls": {c: universe["calls"][c] for c in trace[start]["plan"]["t0"]}, "violated": res["violated"], "tlc": res["out"][-1200:]},
+                     "C08 (repository test crates): the cache events of a rustc process are not a behaviour of Cache.tla (%s): event %d %s" % (
+                         res["violated"] or "trace rejected", k, json.dumps(trace[min(k - 1, len(trace) - 1)])), case_key="suite-trace")
+
+
 def main(tier, replay=None, selftest=False):
     ck = Check(PROP, tier)
     vlib.build_harness()
@@ -374,6 +444,7 @@ def main(tier, replay=None, selftest=False):
                      "C08: the recorded trace is not a behaviour of Cache.tla (%s): run with plan %s, first unmatched event %s" % (
                          res_t["violated"] or "event rejected", json.dumps(trace[start]["plan"]), ctx[-1] if ctx else None),
                      case_key="trace")
+    suite_part(ck, selftest)
     ck.assumptions += [
         "unordered-collection nondeterminism is detected probabilistically (%d fresh processes per call; the operation uses 4 enums, 4 inputs, 4 fragments, 2 custom scalars)" % nfresh,
         "schedules are orders of cache-lock acquisitions forced by the turn-taking hook; free-running runs are validated against the specification, not compared with a fixed order",
